@@ -100,14 +100,26 @@ Fixpoint sig_eqb (a b : sig) {struct a} : bool :=
   | _, _ => false
   end.
 
-(* impl Ord for Signature: equal variants compare their children, everything else is `(_, _) => Equal` *)
+(* Signature::kind_rank (after fix: commit 668536e1): the position of the kind, the numbers Hash feeds *)
+Definition kind_rank (s : sig) : Z :=
+  match s with
+  | SUnit => 0 | SU8 => 1 | SBool => 2 | SI16 => 3 | SU16 => 4 | SI32 => 5 | SU32 => 6 | SI64 => 7 | SU64 => 8 | SF64 => 9
+  | SStr => 10 | SSig => 11 | SObjPath => 12 | SVariant => 13 | SFd => 14 | SArray _ => 15 | SDict _ _ => 16
+  | SStruct _ => 17 | SMaybe _ => 18
+  end.
+
+(* impl Ord for Signature (after fix: commit 668536e1): equal basic kinds are Equal, equal container kinds compare their
+   children, different kinds are ordered by `self.kind_rank().cmp(&other.kind_rank())` (was: `(_, _) => Equal`) *)
 Fixpoint sig_cmp (a b : sig) {struct a} : comparison :=
   match a, b with
+  | SUnit, SUnit | SU8, SU8 | SBool, SBool | SI16, SI16 | SU16, SU16 | SI32, SI32 | SU32, SU32
+  | SI64, SI64 | SU64, SU64 | SF64, SF64 | SStr, SStr | SSig, SSig | SObjPath, SObjPath
+  | SVariant, SVariant | SFd, SFd => Eq
   | SArray x, SArray y => sig_cmp x y
   | SDict k v, SDict k' v' => match sig_cmp k k' with Eq => sig_cmp v v' | o => o end
   | SStruct xs, SStruct ys => lex sig_cmp xs ys                (* a.iter().cmp(b.iter()) *)
   | SMaybe x, SMaybe y => sig_cmp x y
-  | _, _ => Eq
+  | _, _ => (kind_rank a ?= kind_rank b)%Z
   end.
 
 (* impl Hash for Signature: `N.hash(state)` with an i32 literal, then the children (no length prefix) *)
